@@ -35,7 +35,7 @@ ASSUMPTIONS = ["POSIX paths; no symlinks on the way up (abspath does not resolve
                "oracle accepts either reading",
                "when name.py and name/ exist side by side the property does not say which is loaded; the code takes the "
                "module (model: module beats package; oracle: either)",
-               "find_complete is proved except for candidates in the filesystem root (known finding C20-root-dir)"]
+               "find_complete assumes every directory from the start up to / can be listed (the start directory exists)"]
 
 KINDS = ["none", "module", "package", "both", "baredir"]
 NAMES = ["tasks", "mycoll"]
@@ -410,8 +410,6 @@ def oracle_virtual(case, r):
         if strict is None:
             return None
         why = "CollectionNotFound although %s (at or above the start %s) holds a %s" % (chain[strict], chain[s], kinds[strict])
-        if strict == 0 and s != 0:
-            return "[root] " + why
         return why
     d = posixpath.dirname(r["file"]) if not r["pkg"] else posixpath.dirname(posixpath.dirname(r["file"]))
     if d not in chain:
@@ -420,12 +418,6 @@ def oracle_virtual(case, r):
     if lvl not in (strict, lenient):
         return "found %s, the nearest candidate at or above %s is %s" % (d, chain[s], None if strict is None else chain[strict])
     return None
-
-
-def match_known(entry, failure):
-    if entry.get("id") == "C20-root-dir":
-        return failure["why"].startswith("[root] ")
-    return False
 
 
 # ------------------------------------------------------------------ model side
@@ -560,8 +552,10 @@ def run(ctx):
                         why = oracle_virtual(case, r)
                         out.case(dict(case, rel=startarg), any(k != "none" for k in kinds))
                         out.hist["virtual"] += 1
+                        if kinds[0] != "none":
+                            out.hist["virtual_candidate_in_root"] += 1
                         if why:
-                            out.hist["oracle:" + ("[root]" if why.startswith("[root]") else "other")] += 1
+                            out.hist["oracle:virtual"] += 1
                             out.fail(case, why)
                         lines.append(model_line(case["name"], cwd, startarg, dirs))
                         pending.append((case, canon_impl_virtual(r, case["name"])))
@@ -582,11 +576,11 @@ def run(ctx):
 
 WROOT = {"kind": "virtual", "kinds": ["module", "none", "none"], "name": "tasks", "start": 2}
 
-LEVEL_TEXT = ("Lean 4 proof (find_nearest, find_kind, find_complete_partial, not_found, never_import_error, project_dir_rule, "
+LEVEL_TEXT = ("Lean 4 proof (find_nearest, find_kind, find_complete, not_found, never_import_error, project_dir_rule, "
               "relative_start_resolved) that for every filesystem, working directory, start argument and collection name the "
               "modelled FilesystemLoader.find/Loader.load reports the nearest directory at or above the start that holds "
-              "name.py or name/__init__.py, with the project directory being that directory; completeness is proved except "
-              "for the filesystem root (counterexample theorem, known finding). The model is tied to invoke.loader on every "
+              "name.py or name/__init__.py, with the project directory being that directory; completeness (find_complete) is proved at full strength incl. the filesystem root "
+              "(the pre-repair rule survives as a counterexample theorem). The model is tied to invoke.loader on every "
               "run by a differential check on real temporary directory trees (all layouts up to the bound x all start "
               "directories x six start forms), a Program-level check of the project invoke.yaml, and a direct oracle "
               "('first ancestor containing it')")
